@@ -336,8 +336,25 @@ func idSet(l []entry, kind string) string {
 	return strings.Join(ids, ",")
 }
 
-// offset of a new position relative to an anchor, by category, for a circle of radius r
+// positions stay inside this window: beyond it geo.RectFromCenter wraps around the antimeridian / the
+// poles (maxLon < centre), the offsets below would be scaled by a negative width and land on longitudes
+// such as -514 (which SET accepts), far outside what the property speaks about
+func inWindow(p pos) bool { return math.Abs(p.lon) <= 172 && math.Abs(p.lat) <= 80 }
+
+// offset of a new position relative to an anchor, by category, for a circle of radius r; an offset
+// that would leave the window is mirrored through the anchor (same category by symmetry)
 func place(rng *rand.Rand, anchor pos, r float64, cat string) pos {
+	p := placeRaw(rng, anchor, r, cat)
+	if !inWindow(p) {
+		p = pos{2*anchor.lat - p.lat, 2*anchor.lon - p.lon}
+	}
+	if !inWindow(p) {
+		return anchor
+	}
+	return p
+}
+
+func placeRaw(rng *rand.Rand, anchor pos, r float64, cat string) pos {
 	_, _, maxLat, maxLon := verifapi.RectFromCenter(anchor.lat, anchor.lon, r)
 	dLat, dLon := maxLat-anchor.lat, maxLon-anchor.lon
 	sg := func() float64 {
